@@ -42,7 +42,7 @@ Inductive c13case :=
 Definition c13_id (c : c13case) : N := match c with CProm i _ _ _ _ => i end.
 
 Definition c13_model (omit emit : bool) (s : list (list (metric N))) : list (sample N) :=
-  collect of_int_bits 0 {| omit_prog := omit; emit_ts := emit |} s.
+  collect bits_ops of_int_bits 0 {| omit_prog := omit; emit_ts := emit |} s.
 
 Definition c13_ok (c : c13case) : bool :=
   match c with
